@@ -1396,7 +1396,8 @@ def opnest_cases(draw):
                     lim = min(lim, len([c for c in coords if c < lo]))
                 limit = lim if limit is None else min(limit, lim)
             if limit is not None and limit >= 0:
-                start = draw(st.sampled_from(list(range(limit + 1))))
+                # (the furthest legal start is the interesting one: positions counted from there would be wrong)
+                start = draw(st.sampled_from([limit, limit] + list(range(limit + 1))))
             else:
                 form = "range"
         nest["rng"] = {"form": form, "lo": lo, "hi": hi, "start": start}
